@@ -49,7 +49,7 @@ var curated = map[string][]string{
 	"S-req":  {`{items {summary}}`, `{items {id summary volume}}`, `{boxes {content {summary}}}`, `{item(id: "i1") {summary shipping}}`},
 }
 
-var faultKinds = []string{"transport-error", "http-500-empty", "http-200-empty", "http-200-nonjson", "errors-without-data", "entities-one-short", "entities-one-long"}
+var faultKinds = []string{"transport-error", "http-500-empty", "http-200-empty", "http-200-nonjson", "errors-without-data", "entities-one-short", "entities-one-long", "entities-empty"}
 
 func families(run *vk.Run) []*family {
 	mk := func(name string, s *fedlab.Supergraph, u *fedlab.Universe, menu func(t, f string) [][]fedlab.ArgUse, bases ...func(fedlab.FieldRef) int) *family {
@@ -428,6 +428,14 @@ func judgeFault(f *family, lab *fedlab.Lab, q string, b *baseline, F []string, k
 			}
 			applicable = true
 			d["_entities"] = ents[:len(ents)-1]
+		case "entities-empty":
+			// a BATCH answered with no entity at all (for one representation this
+			// is entities-one-short)
+			if len(ents) < 2 {
+				return 200, body
+			}
+			applicable = true
+			d["_entities"] = []any{}
 		case "entities-one-long":
 			applicable = true
 			d["_entities"] = append(ents, ents[len(ents)-1:]...)
